@@ -131,6 +131,7 @@ type fctx struct {
 	parent        *fctx
 	validTerm     *Term
 	rootCon       *Contract
+	lemmaReveal   map[string]bool
 	ghosts        map[string]Term
 	pendingSplits []string
 	entryState    *State
@@ -612,9 +613,10 @@ func (f *fctx) contractEnv(con *Contract, fn *ssa.Function, args []Term, results
 	}
 	sorts := f.vc.typeParamSorts(fn)
 	pure := f.vc.pureResolver(fn)
-	env := &Env{Vars: vars, FieldOf: mk(st), Defs: f.vc.cs.Defs, Sorts: sorts, Pure: pure}
+	reveal := f.revealSet()
+	env := &Env{Vars: vars, FieldOf: mk(st), Defs: f.vc.cs.Defs, Sorts: sorts, Pure: pure, Reveal: reveal}
 	if pre != nil {
-		env.Old = &Env{Vars: vars, FieldOf: mk(pre), Defs: f.vc.cs.Defs, Sorts: sorts, Pure: pure}
+		env.Old = &Env{Vars: vars, FieldOf: mk(pre), Defs: f.vc.cs.Defs, Sorts: sorts, Pure: pure, Reveal: reveal}
 	}
 	return env
 }
@@ -1239,6 +1241,15 @@ func (f *fctx) phi(phi *ssa.Phi, preds []*ssa.BasicBlock, conds []Term) {
 	f.vals[phi] = f.define(phi.Name(), t)
 }
 
+// revealSet: the opaque definitions the contract being proved asks to expand.
+func (f *fctx) revealSet() map[string]bool {
+	r := f.rootFctx()
+	if r.rootCon != nil {
+		return r.rootCon.Reveal
+	}
+	return r.lemmaReveal
+}
+
 func (f *fctx) rootFctx() *fctx {
 	r := f
 	for r.parent != nil {
@@ -1613,9 +1624,10 @@ func (f *fctx) loopEnv(h *ssa.BasicBlock, from *ssa.BasicBlock, st *State) *Env 
 	}
 	sorts := f.vc.typeParamSorts(f.fn)
 	pure := f.vc.pureResolver(f.fn)
-	env := &Env{Vars: vars, Defs: f.vc.cs.Defs, Sorts: sorts, Funcs: funcs, Pure: pure}
+	reveal := f.revealSet()
+	env := &Env{Vars: vars, Defs: f.vc.cs.Defs, Sorts: sorts, Funcs: funcs, Pure: pure, Reveal: reveal}
 	env.FieldOf = func(x Term, field string) (Term, bool) { return f.fieldIn(st, x, field) }
-	env.Old = &Env{Vars: vars, Defs: f.vc.cs.Defs, Sorts: sorts, Funcs: funcs, Pure: pure, FieldOf: func(x Term, field string) (Term, bool) { return f.fieldIn(f.entry, x, field) }}
+	env.Old = &Env{Vars: vars, Defs: f.vc.cs.Defs, Sorts: sorts, Funcs: funcs, Pure: pure, Reveal: reveal, FieldOf: func(x Term, field string) (Term, bool) { return f.fieldIn(f.entry, x, field) }}
 	return env
 }
 
